@@ -58,6 +58,10 @@ Definition read_list (p : param) (first : Q) (rest : list Q) : loutcome :=
 
 Definition lstored (o : loutcome) : bool := match o with LStore _ => true | LKeep => false end.
 
+(* a value written with a unit ("20000 meter"): ConvertUnits turns the text into the magnitude in the parameter's
+   CurrentUnits (pint; the conversion is data: [conv]) and the float branch then runs on that number *)
+Definition read_qualified (p : param) (conv : Q -> Q) (v : Q) : outcome := read_param p (conv v).
+
 Definition accepted (o : outcome) : bool := match o with Accept _ => true | _ => false end.
 
 (* Provided flag after the call (False before it): floats set it already on "== DefaultValue" *)
